@@ -270,6 +270,14 @@ for _pid in ("C11", "C17"):
     PROPS[_pid].setdefault("standins", {})["xandikos.caldav.CalendarDataProperty.get_value_ext"] = {
         "driver": HTTP, "bound": "calendar-multiget after every step of the HTTP model histories: calendar-data must equal the GET body "
                                  "(modulo XML line-end normalisation), bodies with non-BMP and XML metacharacters; " + _HTTP_BOUND}
+PROPS["C02"]["functions"] += [W + "GetETagProperty.get_value"]
+PROPS["C16"]["functions"] += [W + "create_href@based", W + "CurrentUserPrincipalProperty.get_value"]
+PROPS["C18"]["functions"] += [W + "CurrentUserPrincipalProperty.get_value", W + "create_href@based"]
+for _f in (W + "CurrentUserPrincipalProperty.get_value", W + "create_href@based"):
+    PROPS["C18"]["replay"][_f] = DISCOVERY
+    PROPS["C18"]["standins"][_f] = {"driver": DISCOVERY, "bound": _DISC_BOUND}
+    PROPS["C16"].setdefault("replay", {})[_f] = DISCOVERY
+    PROPS["C16"].setdefault("standins", {})[_f] = {"driver": DISCOVERY, "bound": _DISC_BOUND}
 for _f in (WEB + "StoreBasedCollection.members", WEB + "StoreBasedCollection.subcollections",
            WEB + "StoreBasedCollection._get_subcollection", G + "TreeGitStore.subdirectories"):
     PROPS["C16"].setdefault("replay", {})[_f] = HTTP
